@@ -138,7 +138,7 @@ def _decide(p, roots, claim_false, eq=None):
     last = ("unknown", None)
     for depth in (1, 3):
         cn = primenv.cone(p, roots, depth)
-        r, m = check(p.cond(), *cn, claim_false, timeout_ms=60000)
+        r, m = check(p.cond(), *cn, claim_false, timeout_ms=60000, soft=True)
         last = (r, m)
         if r == "unsat":
             return last
@@ -149,7 +149,10 @@ def _decide(p, roots, claim_false, eq=None):
         if st == "facts":
             r, m = check(p.cond(), *facts, claim_false, timeout_ms=120000)
             return (r, m)
+        sym.STATS["unknown"] += 1
         return ("unknown", None)
+    if last[0] == "unknown":
+        sym.STATS["unknown"] += 1
     return last
 
 
@@ -359,17 +362,22 @@ def replay_mysql323(p):
     return (not H.verify(p, h)) and "mysql323 does not verify its own hash of %r" % (p,)
 
 
-def ob_text_encoding(name, enc):
-    """hashers that take an encoding keyword: a text password and its bytes in that encoding are the same password"""
+def ob_text_encoding(name, enc, domain="upper-stable"):
+    """hashers that take an encoding keyword: a text password and its bytes in that encoding are the same password.
+    Two obligations per hasher: characters U+00A0..U+00FF that upper-casing leaves alone, and the ones it changes (the
+    lower-case letters, the sharp s and the micro sign) - so that a finding about one class does not hide the other"""
     from passlib import registry
     H = registry.get_crypt_handler(name)
     kw = dict(c08.ctxkw(H), encoding=enc)
     c = z3.BitVec("t0", 21)
     t = SStr(["p", c, "w"], [1, 2, 1])
     sbytes.FRESH_DIGESTS = True
+    changing = [v for v in range(0xA0, 0x100) if chr(v).upper() != chr(v)]
+    in_changing = z3.Or(*[c == v for v in changing])
 
     def run():
         sym.assume(z3.And(z3.UGE(c, 0xA0), z3.ULE(c, 0xFF)))
+        sym.assume(in_changing if domain == "upper-changes" else z3.Not(in_changing))
         b = t.encode(enc)
         h1 = H.hash(t, **kw)
         h2 = H.hash(b, **kw)
@@ -386,26 +394,28 @@ def ob_text_encoding(name, enc):
                 return inconclusive("Unsupported: %s" % p.exc)
             r, m = check(p.cond())
             if r == "sat":
-                return _eviol(name, enc, m, c, "raises %r" % (p.exc,))
+                return _eviol(name, enc, m, c, "raises %r" % (p.exc,), domain)
             continue
         for v, what in zip(p.result, ("hash(text) does not verify the encoded bytes", "hash(bytes) does not verify the text",
                                       "hash(text) does not verify the text")):
             e = _bool(v)
             r, m = _decide(p, [e], z3.Not(e))
             if r == "sat":
-                return _eviol(name, enc, m, c, what)
+                return _eviol(name, enc, m, c, what, domain)
             if r != "unsat":
                 return inconclusive("solver %s" % r)
         done += 1
     if not done:
         return inconclusive("no completed path")
-    return ok("%s with encoding=%s: a text password with any character U+00A0..U+00FF and its %s bytes are interchangeable (%d paths)" %
-              (name, enc, enc, done), paths=len(paths))
+    return ok("%s with encoding=%s: a text password with any character U+00A0..U+00FF %s and its %s bytes are interchangeable (%d paths)" %
+              (name, enc, "that upper-casing changes" if domain == "upper-changes" else "that upper-casing leaves alone", enc, done),
+              paths=len(paths))
 
 
-def _eviol(name, enc, m, c, what):
+def _eviol(name, enc, m, c, what, domain="upper-stable"):
     ch = chr(m.eval(c, True).as_long()) if m is not None and hasattr(m, "eval") else "\xe9"
-    return violation("%s(encoding=%s), password %r: %s" % (name, enc, "p" + ch + "w", what), "roundtrip:%s:encoding" % name,
+    return violation("%s(encoding=%s), password %r: %s" % (name, enc, "p" + ch + "w", what),
+                     "roundtrip:%s:encoding%s" % (name, ":non-ascii-lower-case" if domain == "upper-changes" else ""),
                      {"module": "harness.c01", "func": "replay_text_encoding", "args": {"name": name, "enc": enc, "text": "p" + ch + "w"}})
 
 
@@ -526,7 +536,8 @@ def run(tier, seed, t0, only=None):
     for n in names:
         if "encoding" in getattr(_reg.get_crypt_handler(n), "context_kwds", ()):
             for enc in (("latin-1",) if tier == "quick" else ("latin-1", "utf-8")):
-                obs.append(Ob("text-encoding[%s,%s]" % (n, enc), ob_text_encoding, {"name": n, "enc": enc}, timeout=600))
+                for dom in ("upper-stable", "upper-changes"):
+                    obs.append(Ob("text-encoding[%s,%s,%s]" % (n, enc, dom), ob_text_encoding, {"name": n, "enc": enc, "domain": dom}, timeout=600))
     if only:
         obs = [o for o in obs if only in o.name]
     results = runner.run_obligations(obs)
